@@ -557,9 +557,10 @@ func (w *world) replays(phase string) {
 		w.mu.Lock()
 		dgs := append([][]byte(nil), w.genDg...)
 		w.mu.Unlock()
-		idx := w.every(len(dgs), 2)
-		if len(dgs) > 0 {
-			idx = append(idx, 0, len(dgs)-1)
+		// every recorded datagram (a session produces a few dozen): which kind draws a reaction depends on the server's state
+		idx := make([]int, 0, len(dgs))
+		for i := range dgs {
+			idx = append(idx, i)
 		}
 		keys := allKeys(time.Now().Unix())
 		for _, i := range idx {
